@@ -93,3 +93,31 @@ func foreignCtxProbe(c *hc.Case, tags map[string]bool) {
 		}
 	}
 }
+
+// zeroDeadlineProbe: "ran longer than Execution.Timeout" is about durations, whatever the clock's readings are --
+// also when the call's deadline (start + Timeout) is exactly the zero time.Time, a value code likes to use for
+// "none".  The call starts at zero time - Timeout, runs ten times its timeout and fails: one run event, a timeout.
+func zeroDeadlineProbe(c *hc.Case, tags map[string]bool) {
+	for _, ret := range []string{"error", "nil"} {
+		tmo := time.Second
+		now := time.Time{}.Add(-tmo)
+		var kinds []string
+		var cfg circuit.Config
+		cfg.General.TimeKeeper.Now = func() time.Time { return now }
+		cfg.Execution.Timeout = tmo
+		cfg.Metrics.Run = []circuit.RunMetrics{kindRec{&kinds}}
+		x := circuit.NewCircuitFromConfig("zero-deadline", cfg)
+		_ = x.Run(context.Background(), func(context.Context) error {
+			now = now.Add(10 * tmo)
+			if ret == "error" {
+				return errors.New("late")
+			}
+			return nil
+		})
+		tags["zero-deadline"] = true
+		if len(kinds) != 1 || kinds[0] != "KTimeout" {
+			c.Viol = append(c.Viol, hc.Violation{Clause: "C05: the kind follows the precedence order bad request, timeout, caller interrupt, failure, success",
+				Detail: fmt.Sprintf("the substitute clock read zero time - 1s when the call started (so its deadline is the zero time), Timeout 1s, the function returned %s 10s later: run events %v, want [KTimeout]", ret, kinds), AtOp: len(c.Ops)})
+		}
+	}
+}
